@@ -72,6 +72,22 @@ type c14Case struct {
 	pre   string // "" | "same-line": fo TAB TAB SPACE typed first | "previous-call": an earlier Readline call of the same Shell ended with fo TAB TAB Enter
 }
 
+// c14Preludes: what the Shell did before the completion under test, besides the two original
+// preludes "same-line" and "previous-call" (an accepted candidate). Each leaves the line empty.
+var c14Preludes = map[string]struct {
+	prior bool // an earlier, complete Readline call (else: earlier keys of the same call)
+	keys  []string
+}{
+	"interrupted-completion-previous-call": {true, []string{"fo", "\t", "\t", "\x03", "\x15", "\r"}},
+	"interrupted-completion-same-call":     {false, []string{"fo", "\t", "\t", "\x03", "\x15"}},
+	"unmatched-completion-same-call":       {false, []string{"qq", "\t", "\x15"}},
+	"aborted-isearch-previous-call":        {true, []string{"abc", "\x12", "\x03", "\r"}},
+	"aborted-isearch-same-call":            {false, []string{"abc", "\x12", "\x03", "\x15"}},
+	"isearch-with-text-same-call":          {false, []string{"\x12", "q", "\x03", "\x15"}},
+}
+
+var c14PreludeNames = []string{"same-line", "previous-call", "interrupted-completion-previous-call", "interrupted-completion-same-call", "unmatched-completion-same-call", "aborted-isearch-previous-call", "aborted-isearch-same-call", "isearch-with-text-same-call"}
+
 func c14Job(id int, cs c14Case, tables []c14Table) (harness.Job, int) {
 	t := tables[cs.table]
 	rc := modeRC(cs.mode) + "set convert-meta off\nset input-meta on\nset output-meta on\n" + t.rc + cs.opt
@@ -79,6 +95,9 @@ func c14Job(id int, cs c14Case, tables []c14Table) (harness.Job, int) {
 	var ans []harness.Answer
 	if cs.pre == "same-line" {
 		ans = append(ans, Keys("fo", "\t", "\t", " ")...)
+	}
+	if p, ok := c14Preludes[cs.pre]; ok && !p.prior {
+		ans = append(ans, Keys(p.keys...)...)
 	}
 	if cs.buf != "" {
 		ans = append(ans, Key(cs.buf))
@@ -90,6 +109,9 @@ func c14Job(id int, cs c14Case, tables []c14Table) (harness.Job, int) {
 	ans = append(ans, Key("\t"))
 	for _, k := range cs.keys {
 		ans = append(ans, Key(c14Keys[k].bytes))
+	}
+	if p, ok := c14Preludes[cs.pre]; ok && p.prior {
+		return harness.Job{ID: id, Cfg: cfg, Calls: [][]harness.Answer{Keys(p.keys...), ans}, Want: harness.Want{Obs: 2, From: from}}, from
 	}
 	if cs.pre == "previous-call" {
 		return harness.Job{ID: id, Cfg: cfg, Calls: [][]harness.Answer{Keys("fo", "\t", "\t", "\r"), ans}, Want: harness.Want{Obs: 2, From: from}}, from
@@ -324,7 +346,7 @@ func runC14(c *Ctx) {
 	}
 	// the same completions when the Shell has inserted a candidate before (earlier on the line, or in
 	// an earlier call): TAB alone and TAB + one key
-	for _, pre := range []string{"same-line", "previous-call"} {
+	for _, pre := range c14PreludeNames {
 		for _, mode := range []string{"emacs", "vi-insert"} {
 			for ti := range tables {
 				if !tables[ti].spec.ByWord {
@@ -346,7 +368,7 @@ func runC14(c *Ctx) {
 	for _, t := range tables {
 		tn = append(tn, t.name)
 	}
-	c.Rule = fmt.Sprintf("(+ the TAB and TAB+1 key cases again after an earlier completion on the same line / in a previous call) %d buffers x every cursor position x %d candidate tables %v x key strings TAB + <= 2 of %d menu keys x {emacs, vi-insert} x %d option sets; buffers observed at every wait from the first TAB. non-trivial = distinct cases in which a candidate (or common prefix) was actually inserted", len(bufs), len(tables), tn, len(c14Keys), len(opts))
+	c.Rule = fmt.Sprintf("(+ the TAB and TAB+1 key cases again after %d kinds of earlier activity of the same Shell %v: a completion accepted / interrupted / without match, an incremental search aborted, earlier on the line or in a previous call) %d buffers x every cursor position x %d candidate tables %v x key strings TAB + <= 2 of %d menu keys x {emacs, vi-insert} x %d option sets; buffers observed at every wait from the first TAB. non-trivial = distinct cases in which a candidate (or common prefix) was actually inserted", len(c14PreludeNames), c14PreludeNames, len(bufs), len(tables), tn, len(c14Keys), len(opts))
 	c.Bounds = map[string]any{"buffers": bufs, "tables": tn, "keys": len(c14Keys), "max_keys_after_TAB": 2, "cases": len(cases)}
 	c.Assumptions = []string{"the word being completed starts at or after the last blank before the cursor", "after the menu closes, later typed keys edit the line: only 'text before the word' and 'text after the cursor' are judged there"}
 	next := 0
